@@ -249,23 +249,35 @@ fn c05_mreg_max_mae_mse_median() {
     kani::cover!(o_max(&a0, &b0) != o_max(&a1, &b1) && o_mse(&a0, &b0) != o_mse(&a1, &b1));
 }
 
-// @unit class=bounded tier=quick mem=heavy bound="n=2 rows,2 columns,|v|<=4,truth non-constant,receiver nonzero" fns=linfa::metrics_regression::MultiTargetRegression::r2,linfa::metrics_regression::MultiTargetRegression::mean_absolute_percentage_error
+// @unit class=bounded tier=thorough mem=heavy timeout=900 bound="n=2 rows,2 columns,column 0 symbolic |v|<=2,column 1 fixed,truth non-constant" fns=linfa::metrics_regression::MultiTargetRegression::r2
 #[kani::proof]
 #[kani::unwind(6)]
+#[kani::solver(kissat)]
 #[kani::stub(alloc::fmt::format, fmt_stub)]
-fn c05_mreg_r2_mape() {
-    let (a0, a1, b0, b1) = (ints::<2>(4), ints::<2>(4), ints::<2>(4), ints::<2>(4));
-    kani::assume(b0[0] != b0[1] && b1[0] != b1[1]);
+fn c05_mreg_r2() {
+    let (a0, a1, b0, b1) = (ints::<2>(2), [1i8, 2], ints::<2>(2), [0i8, 2]);
+    kani::assume(b0[0] != b0[1]);
     let (p, t) = (mat(&a0, &a1), mat(&b0, &b1));
     let r = p.r2(&t).unwrap();
     assert!(r.len() == 2 && r[0] == o_r2(&a0, &b0) && r[1] == o_r2(&a1, &b1));
+    kani::cover!(r[0] == 1.0 && r[1] == 0.5);
+}
+
+// @unit class=bounded tier=thorough mem=heavy bound="n=2 rows,2 columns,|v|<=2,receiver nonzero" fns=linfa::metrics_regression::MultiTargetRegression::mean_absolute_percentage_error
+#[kani::proof]
+#[kani::unwind(6)]
+#[kani::solver(kissat)]
+#[kani::stub(alloc::fmt::format, fmt_stub)]
+fn c05_mreg_mape() {
+    let (a0, a1, b0, b1) = (ints::<2>(2), ints::<2>(2), ints::<2>(2), ints::<2>(2));
     kani::assume(a0[0] != 0 && a0[1] != 0 && a1[0] != 0 && a1[1] != 0);
+    let (p, t) = (mat(&a0, &a1), mat(&b0, &b1));
     let m = p.mean_absolute_percentage_error(&t).unwrap();
     let (d0, d1) = (diffs(&a0, &b0), diffs(&a1, &b1));
     let w0 = ((d0[0] as f32 / a0[0] as f32).abs() + (d0[1] as f32 / a0[1] as f32).abs()) / 2.0;
     let w1 = ((d1[0] as f32 / a1[0] as f32).abs() + (d1[1] as f32 / a1[1] as f32).abs()) / 2.0;
     assert!(m.len() == 2 && m[0] == w0 && m[1] == w1);
-    kani::cover!(r[0] != r[1] && m[0] != m[1]);
+    kani::cover!(m[0] == 0.0 && m[1] == 1.5);
 }
 
 // @unit class=bounded tier=quick mem=heavy bound="n=1 row,2 columns,v in 0..4,ln uninterpreted with values on the grid k/4" fns=linfa::metrics_regression::MultiTargetRegression::mean_squared_log_error
@@ -285,15 +297,16 @@ fn c05_mreg_msle() {
     kani::cover!(a0[0] != b0[0] && a1[0] == b1[0] && r[0] > 0.0 && r[1] == 0.0);
 }
 
-// @unit class=bounded tier=quick mem=heavy bound="n=2 rows,2 columns,|v|<=4,truth non-constant" fns=linfa::metrics_regression::MultiTargetRegression::explained_variance
+// @unit class=bounded tier=thorough mem=heavy timeout=900 bound="n=2 rows,2 columns,column 0 symbolic |v|<=2,column 1 fixed,truth non-constant" fns=linfa::metrics_regression::MultiTargetRegression::explained_variance
 #[kani::proof]
 #[kani::unwind(6)]
+#[kani::solver(kissat)]
 #[kani::stub(alloc::fmt::format, fmt_stub)]
 fn c05_mreg_explained_variance_textbook() {
-    let (a0, a1, b0, b1) = (ints::<2>(4), ints::<2>(4), ints::<2>(4), ints::<2>(4));
-    kani::assume(b0[0] != b0[1] && b1[0] != b1[1]);
+    let (a0, a1, b0, b1) = (ints::<2>(2), [1i8, 2], ints::<2>(2), [0i8, 2]);
+    kani::assume(b0[0] != b0[1]);
     let (p, t) = (mat(&a0, &a1), mat(&b0, &b1));
     let r = p.explained_variance(&t).unwrap();
     assert!(r.len() == 2 && r[0] == o_ev(&a0, &b0) && r[1] == o_ev(&a1, &b1));
-    kani::cover!(o_ev(&a0, &b0) == 1.0 && o_ev(&a1, &b1) == 0.0);
+    kani::cover!(o_ev(&a0, &b0) == 0.0 && o_ev(&a1, &b1) == 0.75);
 }
